@@ -355,6 +355,12 @@ def install_mutant(name):
             return [k for k in curr if k not in prev or not prev[k] or prev[k][-1] != curr[k]]
 
         schedule._diff = diff
+    elif name == 'diff_first_only':  # only the first persisted version counts
+
+        def diff(curr, prev):
+            return [k for k in curr if k not in prev or not prev[k] or prev[k][0] != curr[k]]
+
+        schedule._diff = diff
     elif name == 'values_ignored':  # build() forgets the value table
         real = schedule._diff
         calls = {'n': 0}
@@ -393,11 +399,6 @@ def install_mutant(name):
         dawgie.db.shelve.versions = versions
     elif name:
         raise ValueError(f'unknown mutant {name}')
-
-
-MUTANTS_A = ['ge_ignores_impl', 'newer_or_equal', 'lt_is_le']
-MUTANTS_B = ['diff_substring', 'diff_absent_ok', 'diff_latest_only', 'values_ignored', 'asp_gets_targets', 'owner_by_task', 'current_skips_values']
-MUTANTS_H = ['versions_forget_first']
 
 
 def main():
